@@ -522,6 +522,97 @@ async def path_spelling_case(ctx, nodes: dict, workdir: str, spelling: str) -> N
         shutil.rmtree(base, ignore_errors=True)
 
 
+async def same_object_reload_case(ctx, nodes: dict, workdir: str, index: int, mutation: str) -> None:
+    """save, then the application changes the registry (clears it, drops a node, edits values), then load() through the SAME
+    Persistence object: every node the file holds is in the registry again as it was saved (load reads the file, whatever
+    the object remembers about it)."""
+    from aiomysensors.persistence import Persistence
+
+    case = {"origin": {"kind": "same-object-reload", "index": index, "mutation": mutation}, "registry": snap(nodes)}
+    path = os.path.join(workdir, f"reload-{index}.json")
+    if os.path.exists(path):
+        os.unlink(path)
+    persistence = Persistence(nodes, path)
+    ctx.case(("same-object-reload", mutation, json.dumps(snap(nodes), sort_keys=True, default=str)), sample=None)
+    try:
+        if index % 2:
+            await persistence.load()  # file missing: creates it
+        await persistence.save()
+        saved = typed(snap(nodes))
+        victim = sorted(nodes)[index % len(nodes)]
+        if mutation == "clear":
+            nodes.clear()
+        elif mutation == "drop-node":
+            del nodes[victim]
+        elif mutation == "edit-values":
+            node = nodes[victim]
+            node.battery_level = (node.battery_level + 7) % 100
+            node.sketch_name = "edited after the save"
+            for child in node.children.values():
+                child.values[2] = "edited"
+                child.description = "edited"
+        elif mutation == "drop-children":
+            nodes[victim].children.clear()
+        await persistence.load()
+    except Exception as exc:  # noqa: BLE001
+        ctx.violation("saved-file-rejected-by-load", f"save / change ({mutation}) / load through one Persistence object raised "
+                                                     f"{type(exc).__name__}: {exc!s:.100}", case)
+        return
+    finally:
+        if os.path.exists(path):
+            os.unlink(path)
+    ctx.clause("same-object-reload")
+    after = typed(snap(nodes))
+    for node_id, want in saved.items():
+        diff = first_difference({node_id: want}, {node_id: after.get(node_id)}) if node_id in after else "node missing"
+        if diff:
+            ctx.violation("roundtrip-differs", f"save, registry changed ({mutation}), load through the SAME Persistence object: "
+                                               f"node {node_id} is not as saved ({diff})", case)
+            return
+
+
+async def exact_size_case(ctx, workdir: str, target: int) -> None:
+    """Documents of an exact byte size (chunk / buffer boundaries of the writer: k x 4 KiB ... 1 MiB and k x every
+    byte-count-like numeric constant of the code, each -1 / 0 / +1): what save writes, load accepts and returns."""
+    from aiomysensors.model.node import Child, Node
+    from aiomysensors.persistence import Persistence
+
+    case = {"origin": {"kind": "exact-size", "target": target}}
+    path = os.path.join(workdir, f"exact-{target}.json")
+    nodes = {n: Node(n, 17, "2.2", children={c: Child(c, 6, description=f"child {c}", values={0: "21.5", 1: "40"})
+                                             for c in range(3)}, sketch_name="sized", sketch_version="1.0")
+             for n in range(1, 4)}
+    persistence = Persistence(nodes, path)
+    try:
+        await persistence.save()
+        size = os.path.getsize(path)
+        if size > target:
+            ctx.obs("exact-size:target-below-minimal-document")
+            return
+        nodes[1].children[0].description = "d" * (target - size + len(nodes[1].children[0].description))
+        await persistence.save()
+        size = os.path.getsize(path)
+        ctx.case(("exact-size", target), sample=case)
+        if size != target:
+            ctx.obs("exact-size:size-not-reached")  # another encoding of the padding: still a valid round trip below
+        else:
+            ctx.clause("exact-size-roundtrip")
+        before = typed(snap(nodes))
+        loaded: dict = {}
+        try:
+            await Persistence(loaded, path).load()
+        except Exception as exc:  # noqa: BLE001
+            ctx.violation("saved-file-rejected-by-load", f"a document of {size} bytes written by save was rejected by load: "
+                                                         f"{type(exc).__name__}: {exc!s:.100}", case)
+            return
+        diff = first_difference(before, typed(snap(loaded)))
+        if diff:
+            ctx.violation("roundtrip-differs", f"document of {size} bytes: loaded registry differs at {diff}", case)
+    finally:
+        if os.path.exists(path):
+            os.unlink(path)
+
+
 async def path_reassigned_case(ctx, nodes: dict, workdir: str, index: int) -> None:
     """`path` is a public field of Persistence: an application that points the object at another file (a backup copy, a
     new location) and saves gets THAT file written - a fresh object given the new path loads the registry."""
@@ -709,6 +800,21 @@ def run(ctx) -> None:
                     while not nodes:
                         nodes = constructed(rng)
                     arun(path_reassigned_case(ctx, nodes, workdir, i))
+            for i, mutation in enumerate(("clear", "drop-node", "edit-values", "drop-children") * 2):
+                if ctx.mine(i + 1):
+                    nodes = constructed(rng)
+                    while not nodes:
+                        nodes = constructed(rng)
+                    arun(same_object_reload_case(ctx, nodes, workdir, i, mutation))
+            from .. import codedict as _codedict
+
+            units = [4096, 8192, 16384, 32768, 65536, 1 << 20] + [int(n) for n in _codedict.novel_numbers()
+                                                                  if 256 <= n <= (1 << 24) and float(n).is_integer()]
+            targets = sorted({k * unit + d for unit in units for k in (1, 2, 3, 4) for d in (-1, 0, 1)
+                              if k * unit <= ctx.pick(5, 70) * (1 << 20)})
+            for i, target in enumerate(targets):
+                if ctx.mine(i):
+                    arun(exact_size_case(ctx, workdir, target))
             for i, spelling in enumerate(PATH_SPELLINGS):
                 if ctx.mine(i):
                     nodes = constructed(rng)
